@@ -297,6 +297,160 @@ fn fit_case<T: Sc>(rng: &mut Rng, case: u64, out: &mut CaseOut, pools: &[usize])
     }
 }
 
+/// a hand-written model over a *complex* scalar type (damped oscillations in complex notation): a model
+/// like any other that is Sync; fits need a real field, but residuals, coefficients and the Jacobian of
+/// the parallel problem must agree with the sequential one for every pool size
+mod complex_model {
+    use nalgebra::{Complex, DMatrix, DVector, Dyn, OMatrix, OVector};
+    use varpro::prelude::SeparableNonlinearModel;
+    pub type C64 = Complex<f64>;
+    #[derive(Debug)]
+    pub struct Never;
+    impl std::fmt::Display for Never {
+        fn fmt(&self, f: &mut std::fmt::Formatter<'_>) -> std::fmt::Result {
+            write!(f, "never fails")
+        }
+    }
+    impl std::error::Error for Never {}
+    /// columns: exp(i w_k x) for each complex frequency w_k, one shared-damping column exp(-x/tau), 1
+    #[derive(Clone)]
+    pub struct Oscillations {
+        pub x: DVector<f64>,
+        pub params: DVector<C64>,
+    }
+    impl Oscillations {
+        fn nfreq(&self) -> usize {
+            self.params.len() - 1
+        }
+    }
+    impl SeparableNonlinearModel for Oscillations {
+        type ScalarType = C64;
+        type Error = Never;
+        fn parameter_count(&self) -> usize {
+            self.params.len()
+        }
+        fn base_function_count(&self) -> usize {
+            self.nfreq() + 2
+        }
+        fn output_len(&self) -> usize {
+            self.x.len()
+        }
+        fn set_params(&mut self, p: OVector<C64, Dyn>) -> Result<(), Never> {
+            self.params = p;
+            Ok(())
+        }
+        fn params(&self) -> OVector<C64, Dyn> {
+            self.params.clone()
+        }
+        fn eval(&self) -> Result<OMatrix<C64, Dyn, Dyn>, Never> {
+            let i = C64::new(0.0, 1.0);
+            let k = self.nfreq();
+            let tau = self.params[k];
+            Ok(DMatrix::from_fn(self.x.len(), k + 2, |r, c| {
+                let x = self.x[r];
+                if c < k {
+                    (i * self.params[c] * x).exp()
+                } else if c == k {
+                    (-C64::from(x) / tau).exp()
+                } else {
+                    C64::new(1.0, 0.0)
+                }
+            }))
+        }
+        fn eval_partial_deriv(&self, d: usize) -> Result<OMatrix<C64, Dyn, Dyn>, Never> {
+            let i = C64::new(0.0, 1.0);
+            let k = self.nfreq();
+            let tau = self.params[k];
+            Ok(DMatrix::from_fn(self.x.len(), k + 2, |r, c| {
+                let x = self.x[r];
+                if c == d && d < k {
+                    i * x * (i * self.params[c] * x).exp()
+                } else if c == d && d == k {
+                    C64::from(x) / (tau * tau) * (-C64::from(x) / tau).exp()
+                } else {
+                    C64::new(0.0, 0.0)
+                }
+            }))
+        }
+    }
+}
+
+fn complex_case(rng: &mut Rng, case: u64, out: &mut CaseOut, pools: &[usize]) {
+    use complex_model::{Oscillations, C64};
+    use levenberg_marquardt::LeastSquaresProblem;
+    use nalgebra::DMatrix;
+    use varpro::solvers::levmar::LevMarProblemBuilder;
+    let stream = "complex-scalar";
+    let k = rng.int(1, 3);
+    let n = k + 2 + rng.int(2, 30);
+    let x = DVector::from_fn(n, |j, _| 0.25 * j as f64 + rng.range(0.0, 0.05));
+    let params = DVector::from_fn(k + 1, |j, _| if j < k { C64::new(0.6 + 0.7 * j as f64 + rng.range(0.0, 0.3), rng.range(0.0, 0.1)) } else { C64::new(rng.range(1.5, 4.0), rng.range(-0.3, 0.3)) });
+    let model = Oscillations { x, params: params.clone() };
+    let s = *rng.pick(&[1usize, 2, 3]);
+    let y = DMatrix::from_fn(n, s, |_, _| C64::new(rng.normal(), rng.normal()));
+    let w: Option<DVector<C64>> = if rng.chance(0.6) { Some(DVector::from_fn(n, |_, _| C64::new(rng.range(0.3, 2.0), 0.0))) } else { None };
+    let other = DVector::from_fn(k + 1, |j, _| params[j] * C64::new(rng.range(0.8, 1.2), rng.range(-0.05, 0.05)));
+    // (residuals, coefficients, jacobian) at the initial parameters and after one update, flattened
+    type State = Vec<Option<Vec<C64>>>;
+    macro_rules! states {
+        ($ctor:ident, $obs:expr) => {{
+            let mut b = LevMarProblemBuilder::$ctor(model.clone()).observations($obs);
+            if let Some(w) = &w {
+                b = b.weights(w.clone());
+            }
+            match b.build() {
+                Ok(mut p) => {
+                    let mut v: State = Vec::new();
+                    for step in 0..2 {
+                        v.push(p.residuals().map(|r| r.iter().cloned().collect()));
+                        v.push(p.linear_coefficients().map(|c| c.iter().cloned().collect()));
+                        v.push(p.jacobian().map(|j| j.iter().cloned().collect()));
+                        if step == 0 {
+                            p.set_params(&other);
+                        }
+                    }
+                    Some(v)
+                }
+                Err(_) => None,
+            }
+        }};
+    }
+    let seq: Option<State> = if s == 1 { states!(new, y.column(0).into_owned()) } else { states!(mrhs, y.clone()) };
+    let Some(seq) = seq else {
+        violation(out, stream, case, "valid complex problem rejected by the builder", json!({"N": n, "S": s}));
+        return;
+    };
+    for &t in pools {
+        let pool = rayon::ThreadPoolBuilder::new().num_threads(t).build().unwrap();
+        let par: Option<State> = pool.install(|| if s == 1 { states!(new_parallel, y.column(0).into_owned()) } else { states!(mrhs_parallel, y.clone()) });
+        out.evals += 1;
+        let Some(par) = par else {
+            violation(out, stream, case, "valid complex parallel problem rejected by the builder", json!({"N": n, "S": s}));
+            return;
+        };
+        let names = ["residuals", "coefficients", "jacobian"];
+        for (idx, (a, b)) in seq.iter().zip(&par).enumerate() {
+            let what = names[idx % 3];
+            match (a, b) {
+                (Some(a), Some(b)) if a.len() == b.len() => {
+                    let scale = a.iter().map(|z| z.norm()).fold(0.0, f64::max).max(1e-300);
+                    let diff = a.iter().zip(b).map(|(p, q)| (p - q).norm()).fold(0.0, f64::max);
+                    if !(diff <= 1e-9 * scale) {
+                        violation(out, stream, case, format!("complex scalar type: {what} of the parallel problem (pool of {t}) differ from the sequential problem by {diff:e} (scale {scale:e}) at state {}", idx / 3), json!({"N": n, "S": s, "frequencies": k, "weighted": w.is_some()}));
+                        return;
+                    }
+                }
+                (None, None) => {}
+                _ => {
+                    violation(out, stream, case, format!("complex scalar type: parallel (pool of {t}) and sequential problem disagree about the presence or size of the {what}"), json!({"N": n, "S": s}));
+                    return;
+                }
+            }
+        }
+    }
+    out.nontrivial.push(crate::rng::hash_u64s([case, n as u64, s as u64, k as u64]));
+}
+
 /// workload for TSan / Miri: parallel Jacobians in explicit pools, every element used
 pub fn sanitizer_workload(seed: u64, cases: u64, nmax: usize, len: usize) -> (u64, u64) {
     let mut obs = 0;
@@ -339,7 +493,7 @@ pub fn sanitizer_workload(seed: u64, cases: u64, nmax: usize, len: usize) -> (u6
 }
 
 pub fn run(ctx: &Ctx) {
-    ctx.rule("[15 % of the problems carry one NaN/infinite observation: presence of residuals/coefficients/Jacobian must agree between the flavours; 40 % of the histories end with a Jacobian query during which the derivative of one parameter fails (both flavours must report no Jacobian and keep residuals), followed by a successful one] pools-and-schedules: problems with P = 2..16 nonlinear parameters (hand-written/builder-made multi-exponentials, table models; 1..3 right-hand sides; weights) built through the parallel constructors and run inside explicit rayon pools (quick {1,2,4,16}; thorough 1..16) with seeded spin/yield delays inside eval_partial_deriv; each run is compared with the sequential problem (tolerance; bitwise agreement recorded), with the first parallel run (bitwise: independence of pool size and schedule) and before/after into_sequential (bitwise). Schedule signature of a Jacobian = (column, worker) pairs in completion order from the ModelSpy log. fits: parallel vs sequential fit under random optimizer settings. thorough adds ThreadSanitizer and Miri (many seeds) over the parallel Jacobian workload. distinct = problem hash; all cases non-trivial (P>=2)");
+    ctx.rule("[15 % of the problems carry one NaN/infinite observation: presence of residuals/coefficients/Jacobian must agree between the flavours; 40 % of the histories end with a Jacobian query during which the derivative of one parameter fails (both flavours must report no Jacobian and keep residuals), followed by a successful one] [complex-scalar: a hand-written model over Complex<f64> (1..3 complex frequencies, a damping, an offset; 1..3 right-hand sides; real weights): residuals, coefficients and Jacobian of the parallel problem vs the sequential one at two parameter vectors, for each pool size] pools-and-schedules: problems with P = 2..16 nonlinear parameters (hand-written/builder-made multi-exponentials, table models; 1..3 right-hand sides; weights) built through the parallel constructors and run inside explicit rayon pools (quick {1,2,4,16}; thorough 1..16) with seeded spin/yield delays inside eval_partial_deriv; each run is compared with the sequential problem (tolerance; bitwise agreement recorded), with the first parallel run (bitwise: independence of pool size and schedule) and before/after into_sequential (bitwise). Schedule signature of a Jacobian = (column, worker) pairs in completion order from the ModelSpy log. fits: parallel vs sequential fit under random optimizer settings. thorough adds ThreadSanitizer and Miri (many seeds) over the parallel Jacobian workload. distinct = problem hash; all cases non-trivial (P>=2)");
     ctx.assume("rayon's scheduler is not controlled: schedule coverage is whatever pool sizes and delay injection produce; the evidence reports the distinct signatures observed");
     let t = ctx.tier;
     let pools_q: Vec<usize> = vec![1, 2, 4, 16];
@@ -349,6 +503,7 @@ pub fn run(ctx: &Ctx) {
     // each case builds its own pools: limit harness-level threads so that 16-thread pools are not starved
     ctx.run_cases("pools-and-schedules", t.pick(500, 2500), t.pick(20.0, 400.0), |r, c, o| if c % 3 == 0 { par_case::<f32>(r, c, o, &pools, ds) } else { par_case::<f64>(r, c, o, &pools, ds) });
     let fit_pools = vec![1usize, 3, 8];
+    ctx.run_cases("complex-scalar", t.pick(300, 6000), t.pick(20.0, 300.0), |r, c, o| complex_case(r, c, o, &fit_pools));
     ctx.run_cases("fits", t.pick(400, 3000), t.pick(15.0, 900.0), |r, c, o| if c % 4 == 0 { fit_case::<f32>(r, c, o, &fit_pools) } else { fit_case::<f64>(r, c, o, &fit_pools) });
     {
         let tot = ctx.total.lock().unwrap();
